@@ -271,7 +271,8 @@ def check_C08():
     ctx = Ctx("C08"); cov = {}
     broken = proof_part(ctx, "props/C08.v", ["proofs/C08_cache.v", "proofs/C06_hist.v", "proofs/C06_seq.v", "proofs/C11_table.v", "proofs/C11_lists.v",
                                              "proofs/X_basic.v", "proofs/X_inv.v", "proofs/X_c13.v", "proofs/X_own.v", "proofs/X_chain.v", "proofs/X_c04.v",
-                                             "proofs/X_lin.v", "proofs/X_resize.v", "proofs/X_read.v", "proofs/X_count.v", "XMachine.v", "props/C03.v", "proofs/XS_lock.v", "proofs/XS_own.v", "proofs/XS_count.v", "proofs/XS_size.v", "proofs/XS_inst.v", "XMachineS.v"], cov)
+                                             "proofs/X_lin.v", "proofs/X_resize.v", "proofs/X_read.v", "proofs/X_count.v", "XMachine.v", "props/C03.v", "proofs/XS_lock.v", "proofs/XS_own.v", "proofs/XS_count.v", "proofs/XS_size.v", "proofs/XS_inst.v", "XMachineS.v", "proofs/CX_product.v", "proofs/CX_mapof.v", "proofs/CX_map.v", "proofs/C08X_product.v", "proofs/C08X_mapof.v", "proofs/C08X_map.v", "proofs/C08X_ex.v", "props/C08X.v"], cov)
+    extra_props(ctx, "props/C08X.v", cov, broken)
     res = cache_seq_part(ctx, "C08", cov, N(ctx, 1200, 20000), broken, dense=True)
     law_part(ctx, "C08", cov, res)
     table_part(ctx, "C08", cov, N(ctx, 60, 600), [])
